@@ -131,12 +131,18 @@ def declare(reg, eng):
                  effect="cfg.updatedeps", no_replay=True,
                  ensures=[("C04", "reached_loop('pre_task') and reached_loop('init_task')"),
                           ("C04", "implies(bool(old(self.task)) and not old(self.loaded), member(id(self.task), taskids))"),
-                          ("C04", "implies(bool(old(self.task)) and not old(self.loaded) and not old(member(id(self.task), taskids)), effect('dependency'))"),
+                          # (without pre/init tasks nothing can have recorded the task before the test: the dependency is created here;
+                          #  with them, a nested call may have recorded it - and created the dependency - first: not tracked)
+                          ("C04", "implies(bool(old(self.task)) and not old(self.loaded) and not old(member(id(self.task), taskids)) "
+                                  "and length(old(self.pre_tasks)) == 0 and length(old(self.init_tasks)) == 0, effect('dependency'))"),
                           ("C04", "implies(not (bool(old(self.task)) and not old(self.loaded)), reached_loop('(argument, value)'))")],
                  raises={"Exception": {"when": []}, "AssertionError": {"when": []}},
                  modifies=["elems(dependencies)", "elems(taskids)"],
-                 loops={"pre_task": {"no_break": True, "body_post": [("C04", "effect_with_arg('cfg.updatedeps', 0, pre_task.__xpm__)")]},
-                        "init_task": {"no_break": True, "body_post": [("C04", "effect_with_arg('cfg.updatedeps', 0, init_task.__xpm__)")]},
+                 loops={"pre_task": {"no_break": True, "invariants": ["implies(length(self.pre_tasks) == 0, unchanged(elems(taskids)))"],
+                                     "body_post": [("C04", "effect_with_arg('cfg.updatedeps', 0, pre_task.__xpm__)")]},
+                        "init_task": {"no_break": True,
+                                      "invariants": ["implies(length(self.pre_tasks) == 0 and length(self.init_tasks) == 0, unchanged(elems(taskids)))"],
+                                      "body_post": [("C04", "effect_with_arg('cfg.updatedeps', 0, init_task.__xpm__)")]},
                         "(argument, value)": {"no_break": True,
                                               "body_post": [("C04", "implies(not isnone(value), effect_with_arg('updatedeps', 1, value))")]}})
 
